@@ -75,7 +75,7 @@ func (x *Exec) specLoad(env *Env, p *Pointer) Val {
 	if p.Rows {
 		term = sx("select", sx("select", h, p.Root), p.Idx)
 	} else if p.Enc {
-		term = x.encCell(p, func(key, sort string) string { return x.heapFor(env, key, sort) })
+		term = x.nameCell(env.st, p, x.encCell(p, func(key, sort string) string { return x.heapFor(env, key, sort) }), env.bound)
 	} else {
 		term = sx("select", h, p.Root)
 	}
@@ -719,6 +719,18 @@ func (x *Exec) evalCall(e *Expr, env *Env) Val {
 	case "notexist":
 		a := args()[0]
 		return specBool(sx("err_notexist", a.T))
+	case "ispathne":
+		a := args()[0]
+		return specBool(sx("(_ is ErrPathNotExist)", a.T))
+	case "isfne":
+		a := args()[0]
+		return specBool(sx("(_ is ErrFileNotExist)", a.T))
+	case "fnesd":
+		a := args()[0]
+		return specInt(sx("fe_sd", a.T))
+	case "ishttp":
+		a := args()[0]
+		return specBool(sx("(_ is ErrHTTP)", a.T))
 	case "fresh":
 		a := args()[0]
 		if env.old == nil {
